@@ -195,7 +195,7 @@ func checkC15(cfg *core.Config) int {
 		}
 	})
 	var jobs []runlib.Job
-	n := cfg.Pick(16, 24)
+	n := cfg.Pick(8, 12)
 	for _, id := range sortedKeys(funcs) {
 		recursive := pr.pl.ByID[id].Meta["recursive"] == true
 		for f := range pr.pl.ByID[id].Features {
